@@ -367,6 +367,8 @@ def run(ctx, report):
     from .c12 import state_copy_rule
     state_copy_rule(R14c, [ctx.mod('eval_abs')])
 
+    R16 = report.rule('C07.D16', 'a store searches the cells it covers (get_mem_overlapping) on every path; no fast path decides from an ordering test of the widths that nothing else is covered', floor=1)
+    overlap_search_rule(R16, ea, methods)
     R15 = report.rule('C07.D15', 'every address looked up in the table of stored cells is simplified on every assignment that reaches the lookup (the table is keyed by simplified '
                       'addresses: an address built as `ptr + 1` and not simplified again misses the cell stored there); shared with C06.D14', floor=3)
     lookup_key_rule(R15, ea, methods)
@@ -797,6 +799,17 @@ def lookup_key_rule(R, ea, methods):
             for n in walk_no_nested(fn):
                 if isinstance(n, ast.For) and e.value.id in [x.id for x in ast.walk(n.target) if isinstance(x, ast.Name)] and 'self.pool' in u(n.iter):
                     return None
+            # a key of the table another method of the class returns (get_instr_mod): every memory cell that method builds must stand on a simplified address
+            for n in walk_no_nested(fn):
+                if isinstance(n, ast.For) and e.value.id in [x.id for x in ast.walk(n.target) if isinstance(x, ast.Name)] and isinstance(n.iter, ast.Name):
+                    for a_ in walk_no_nested(fn):
+                        if isinstance(a_, ast.Assign) and len(a_.targets) == 1 and u(a_.targets[0]) == n.iter.id and isinstance(a_.value, ast.Call) \
+                                and isinstance(a_.value.func, ast.Attribute) and u(a_.value.func.value) == 'self' and a_.value.func.attr in methods:
+                            m_ = methods[a_.value.func.attr]
+                            cells_ = [c_ for c_ in walk_no_nested(m_) if isinstance(c_, ast.Call) and u(c_.func) == 'ExprMem' and c_.args]
+                            if cells_ and all(simplified(m_, c_.args[0], c_, frozenset()) is None for c_ in cells_):
+                                return None
+                            return '%s builds memory cells on addresses that are not simplified' % a_.value.func.attr
             return '%s is the address of a cell that is not taken from the pool' % u(e)
         if isinstance(e, ast.Name):
             if e.id in seen:
@@ -864,7 +877,54 @@ def lookup_key_rule(R, ea, methods):
     if n_sites < 3:
         raise AnalysisError('eval_abs: only %d lookups of the cell table were found' % n_sites)
 
+
+def overlap_search_rule(R, ea, methods):
+    """A store removes the parts of stored cells it covers: the per-cell loop of eval_instr (`for off, x in ov: .. substract_mems ..`) runs over what get_mem_overlapping
+    finds.  Every binding of that list that reaches the loop is a call of get_mem_overlapping on the store, or an empty list under a test that establishes there is
+    nothing to remove (the cell at the store's address has the *same* width; the pool is empty).  An empty list under an ordering test of the widths (`old.size <=
+    op.size`) leaves the cells that start inside a wider store in the pool: the classic wrong fast path.  Any other guard stops the analysis."""
+    ei = methods.get('eval_instr')
+    hosts = [ei] + [methods[c.func.attr] for c in ast.walk(ei) if isinstance(c, ast.Call) and isinstance(c.func, ast.Attribute) and u(c.func.value) == 'self'
+                    and c.func.attr in methods and c.func.attr not in ('get_instr_mod', 'get_mem_overlapping', 'substract_mems')]
+    n = 0
+    for h in hosts:
+        for loop in walk_no_nested(h):
+            if not (isinstance(loop, ast.For) and isinstance(loop.iter, ast.Name) and any(isinstance(x, ast.Call) and u(x.func) == 'self.substract_mems' for x in ast.walk(loop))):
+                continue
+            if any(isinstance(in_, ast.For) and in_ is not loop and any(isinstance(x, ast.Call) and u(x.func) == 'self.substract_mems' for x in ast.walk(in_)) for in_ in ast.walk(loop)):
+                continue            # an outer loop (over the stores of the instruction): the per-cell loop is inside
+            lst = loop.iter.id
+            for a in walk_no_nested(h):
+                if not (isinstance(a, ast.Assign) and len(a.targets) == 1 and u(a.targets[0]) == lst):
+                    continue
+                n += 1
+                inst = '%s: %s' % (h.name, norm(a)[:60])
+                if isinstance(a.value, ast.Call) and u(a.value.func) == 'self.get_mem_overlapping':
+                    R.ok(inst, sample='%s: the cells a store covers come from get_mem_overlapping' % h.name, nontrivial=True)
+                    continue
+                if isinstance(a.value, ast.List) and not a.value.elts:
+                    guards = []
+                    p_ = parent(a)
+                    while p_ is not None and p_ is not h:
+                        if isinstance(p_, ast.If):
+                            guards.append(p_.test)
+                        p_ = parent(p_)
+                    txt = ' and '.join(u(g) for g in guards)
+                    cmps = [c for g in guards for c in ast.walk(g) if isinstance(c, ast.Compare) and ('size' in u(c))]
+                    if any(isinstance(o, (ast.Lt, ast.LtE, ast.Gt, ast.GtE)) for c in cmps for o in c.ops):
+                        R.violation(inst, 'overlap-search:skipped:%s' % h.name, '%s binds the list of overlapped cells to [] under `%s`: a stored cell of another width at the store\'s address does not '
+                                    'mean nothing else is covered - cells that start inside a wider store stay in the pool and later reads return their old bytes' % (h.name, txt), where(ea, a),
+                                    witness='movb %al,(%ebx); movb %ah,1(%ebx); movl %ecx,(%ebx); movzbl 1(%ebx),%edx')
+                        continue
+                    if cmps and all(isinstance(o, ast.Eq) for c in cmps for o in c.ops):
+                        R.ok(inst, sample='%s: no search when the cell at the address has the same width (`%s`)' % (h.name, txt), nontrivial=True)
+                        continue
+                raise AnalysisError('%s: the list of overlapped cells is bound by `%s`, a form the overlap rule does not model' % (h.name, norm(a)[:80]))
+    if not n:
+        raise AnalysisError('eval_instr: the loop that subtracts a store from the overlapped cells was not found')
+
 MUTANTS = [
+    ('store-fast-path-narrower-cell', 'miasmx/expression/expression_eval_abstract.py', "                ov = self.get_mem_overlapping(op)\n", "                old = self.find_mem_by_addr(op.arg)\n                if old is not None and old.size <= op.size:\n                    ov = []\n                else:\n                    ov = self.get_mem_overlapping(op)\n", 'C07.D16'),
     ('bigger-lookup-next-address-unsimplified', 'miasmx/expression/expression_eval_abstract.py', "                ptr = expr_simp(ExprOp('+', ptr, ExprInt(uint32(v.size//8))))", "                ptr = ExprOp('+', ptr, ExprInt(uint32(v.size//8)))", 'C07.D15'),
     ('substract-mems-tail-from-cell', 'miasmx/expression/expression_eval_abstract.py', "                ex = ExprOp('+', b.arg, ExprInt(uint32(b.size/8)))", "                ex = ExprOp('+', a.arg, ExprInt(uint32(b.size/8)))", 'C07.D13'),
     ('getreg-reeval', 'miasmx/expression/expression_eval_abstract.py', "        return self.pool[r]\n", "        return self.eval_expr(self.pool[r], {})\n", 'C07.D7'),
